@@ -18,7 +18,9 @@ RULE = ('Fault origins {early listener, ordinary listener, built-in reaction '
         '(login disconnect), built-in reaction (malformed status JSON), '
         'decoder (play frame ending inside a field), exit callback, built-in '
         'reaction failing on a send fault (flush of queued replies inside '
-        'disconnect() after the server has gone)} x handler '
+        'disconnect() after the server has gone), built-in reaction in the '
+        'status phase of a multi-version connect (empty status object)} x '
+        'handler '
         'chains of length 0-2 (quick) / 0-3 (thorough), each handler = (type '
         'filter in {the original type, replacement types only, an unrelated '
         'type, none = catch all}, registered early or not, action in '
@@ -33,7 +35,8 @@ ASSUMPTIONS = ['the reference interpreter below encodes the documented '
 
 V = 757
 ORIGINS = ('early_listener', 'listener', 'reaction_login', 'reaction_status',
-           'decoder', 'exit_callback', 'reaction_flush_fault')
+           'decoder', 'exit_callback', 'reaction_flush_fault',
+           'reaction_negotiation')
 FILTERS = ('orig', 'repl', 'none', 'all')
 ACTIONS = ('return', 'raise', 'reconnect')
 FINALS = ('None', 'False', 'returns', 'raises')
@@ -64,7 +67,8 @@ def orig_type(origin):
             'reaction_login': LoginDisconnect,
             'reaction_status': json.JSONDecodeError,
             'decoder': struct.error,
-            'reaction_flush_fault': BrokenPipeError}[origin]
+            'reaction_flush_fault': BrokenPipeError,
+            'reaction_negotiation': OSError}[origin]
 
 
 def order(chain):
@@ -128,6 +132,11 @@ def body(W, origin, chain, final):
             return {'login': [('disconnect', '{"text":"no"}')]}
         if origin == 'reaction_status':
             return {'status': {'json': 'this is {not json'}}
+        if origin == 'reaction_negotiation':
+            # status phase of a multi-version connect(): an empty status
+            # object is an error of the built-in reaction (IOError), which
+            # must be routed like any other (only EOFError has a fallback)
+            return {'status': {'json': '{}'}}
         if origin == 'decoder':
             return {'login': [('success',)],
                     'play_script': [('raw', 0x21, b'\x01')]}
@@ -163,8 +172,9 @@ def body(W, origin, chain, final):
         exits.append(1)
         if origin == 'exit_callback' and len(exits) == 1:
             raise Orig('from exit callback')
-    conn = W.connection(allowed_versions={V}, handle_exception=make_final(),
-                        handle_exit=on_exit)
+    allowed = {V, 340} if origin == 'reaction_negotiation' else {V}
+    conn = W.connection(allowed_versions=allowed,
+                        handle_exception=make_final(), handle_exit=on_exit)
 
     def make_handler(i, action):
         def fn(exc, info):
@@ -218,7 +228,7 @@ def body(W, origin, chain, final):
     }
     # the new connection (if a handler started one) is live and undisturbed
     if state['reconnected'] and len(W.servers) > 1:
-        srv1 = W.servers[1]
+        srv1 = W.servers[-1]    # (after a negotiated reconnect: the 3rd)
         srv1.play(('keepalive', 777))
         W.settle()
         out['new_conn_alive'] = ('keepalive', 777) in srv1.play_rx and \
